@@ -226,6 +226,7 @@ def run_property(prop, tier, seed, replay_path=None):
         # ---- 4./5. run and evaluate
         prop._skipped = collections.Counter()
         common.DRIFT.clear()
+        common.CANARY.clear()
         ev = evaluate(prop, cases, bins, driver, workdir)
         drift0 = dict(common.DRIFT)
         # (the oracle runs on the implementation transcript and on the model transcript of every case: halve)
@@ -289,7 +290,20 @@ def run_property(prop, tier, seed, replay_path=None):
             return not any(k.get("status") == "known" and prop.known_signature(k, c, r["ops"], r["ri"], f)
                            for k in known)
 
-        if unknown_fail:
+        dead = sorted(k for k, v in common.CANARY.items() if v == "0")
+        if unknown_fail and dead and not getattr(prop, "black_box_only", False):
+            # the harness no longer controls the library (a lever it pulls between "processes" is dead): the transcripts
+            # describe processes that cannot exist, so the oracle failures are no evidence of a failing input
+            c, fs = unknown_fail[0]
+            path = write_replay(pid, {"property": pid, "kind": "harness-levers", "seed": seed, "dead_levers": dead,
+                                      "note": "canaries of harness/whitebox/snaps_canary_test.go: the library no longer follows the package "
+                                              "variables / flags / stdout swap / directory resets this harness uses to play several processes in one; "
+                                              "the oracle complaints below were made on such transcripts and are NOT claimed as failing inputs",
+                                      "oracle_complaints": [f["msg"] for f in fs][:5], "case": strip(c),
+                                      "failing_cases": len(unknown_fail)})
+            say("VIOLATION property=%s replay=%s no-failing-input-found" % (pid, path))
+            violations.append(path)
+        elif unknown_fail:
             c, fs = unknown_fail[0]
             kinds = {fail_kind(f["msg"]) for f in fs if not f.get("oracle_error")} or None
             # (properties whose cases are a fixed few ops long and whose oracle reads the cell from meta are not shrunk)
@@ -392,6 +406,7 @@ def run_property(prop, tier, seed, replay_path=None):
             "oracle_failures_unknown": len(unknown_fail),
             "oracle_guarded_out": dict(sorted(not_judged.items())),
             "presentation_drift": dict(sorted(drift0.items())),
+            "harness_canaries": dict(sorted(common.CANARY.items())),
             "oracle_judged_cases_at_least": max(0, len(cases) - sum(not_judged.values())),
             "distribution": dict(sorted(dist.items())),
             "outside_model": prop.outside_model,
